@@ -12,10 +12,8 @@ open MongoModel.Proofs.C10Lemmas MongoModel.Proofs.C09Lemmas
 /-! ### the matcher on `{_id: tid}` -/
 
 theorem candsKey_id (dfs : Fields) : candsKey "_id" (.doc dfs) = .ok [dget "_id" dfs] := by
-  have h1 : ("_id" = "") = False := by decide
-  have h2 : keyOk "_id" = true := by decide
   have h3 : splitDots "_id" = ["_id"] := by decide
-  simp only [candsKey, h1, if_false, h2, Bool.not_true, Bool.false_eq_true, h3, cands]
+  simp only [candsKey, h3, cands]
 
 theorem plainMatch_nonarr (tid v : Val) (hv : v.isArr = false) :
     plainMatch tid (some v) = pyEq v tid := by
